@@ -324,6 +324,7 @@ theorem txNonOverlap_of_pairwise : ∀ (L : List Blk), L.Pairwise (fun a b => a.
     simp only [nonOverlap, Bool.and_eq_true, decide_eq_true_eq]
     exact ⟨h.1 b (by simp), txNonOverlap_of_pairwise (b :: r) h.2⟩
 
+theorem bases_nil (s : Strand) : bases ⟨[], s⟩ = [] := by cases s <;> rfl
 theorem sortBlocks_nil (s : Strand) : sortBlocks s [] = [] := by simp [sortBlocks]
 theorem sortBlocks_singleton (s : Strand) (b : Blk) : sortBlocks s [b] = [b] := by simp [sortBlocks]
 
@@ -348,7 +349,7 @@ theorem chunkLocOf_facts (init : Location) (L : Loc) (hl : toLoc init = some L) 
     | none =>
       simp only [hc, List.map_nil, sortBlocks_nil] at hcore
       refine ⟨trivial, ?_, ?_⟩
-      · simp only [locationBases]; rw [← hcore]; rfl
+      · simp only [locationBases]; rw [← hcore, bases_nil]
       · intro L' hL'; simp [toLoc] at hL'
     | some c =>
       simp only [hc, List.map_cons, List.map_nil, sortBlocks_singleton] at hcore hord
@@ -366,7 +367,7 @@ theorem chunkLocOf_facts (init : Location) (L : Loc) (hl : toLoc init = some L) 
       simp only [hcs, List.map_nil, sortBlocks_nil] at hcore
       simp only [List.isEmpty_nil, if_true]
       refine ⟨trivial, ?_, ?_⟩
-      · simp only [locationBases]; rw [← hcore]; rfl
+      · simp only [locationBases]; rw [← hcore, bases_nil]
       · intro L' hL'; simp [toLoc] at hL'
     | cons c0 cr =>
       rw [hcs] at hcore hord
